@@ -115,7 +115,7 @@ def replay_run(ctx, prop):
             i = dict(T=c["T"], p=c["p"], K=c["K"], gv=c["gv"], targets=[t["K"] for t in c["targets"]])
         elif "vector" in d:
             r = d["vector"]
-            i = dict(T=r["T"], p=r["p"], K=r["K"], gv=r["gv"], targets=[x["K"] for x in r["decs"]])
+            i = dict(T=r["T"], p=r["p"], K=r["K"], gv=r["gv"], targets=[x["K"] for x in r["decs"] if x.get("mode", "fresh") == "fresh"])
         else:
             continue
         k = json.dumps(i, sort_keys=True)
@@ -277,7 +277,7 @@ def key_for(case, res, spec, phase, what, target=None, err=None):
     """Stable class identifier of a failing case."""
     T, K, gv = case["T"], case["K"], case["gv"]
     scalar = T["t"] not in ("list", "set", "map", "tuple", "udt")
-    if what == "panic" and phase in ("dec", "rt") and has_tuple(T) and err and re.search(
+    if what.startswith("panic") and phase in ("dec", "rt") and has_tuple(T) and err and re.search(
             r"reflect\.Set: value of type .* is not assignable to type|reflect\.MapOf: invalid key type", err):
         return "tuple-target-field-type-panic"
     if phase in ("enc", "rt"):
@@ -344,9 +344,16 @@ def judge_encoding(ctx, cases, results, stats):
                 stats["enc_refused_ok"] += 1
 
 
+MODES = (("", ""), ("_dirty", "-prefilled"), ("_reuse", "-reused"))
+
+
 def judge_decoding(ctx, cases, results, stats, which):
     """which = "spec": Unmarshal of the specification's bytes (C12, converse direction);
-       which = "real": Unmarshal of the bytes Marshal really produced (C02 round trip)."""
+       which = "real": Unmarshal of the bytes Marshal really produced (C02 round trip).
+    Every decode was run into a fresh destination, into one pre-filled with junk of the same type and
+    into a long-lived destination reused by all cases of the same (type, protocol, target kind); the
+    harness reports the latter two only when they differ from the fresh result, and they are judged
+    against the same expectation ("decodes to an equal value" whatever the destination held before)."""
     phase = "dec" if which == "spec" else "rt"
     for c in cases:
         if not c["claimed"]:
@@ -358,28 +365,35 @@ def judge_decoding(ctx, cases, results, stats, which):
         if which == "real" and res["st"] not in ("ok", "null"):
             continue
         for i, tg in enumerate(c["targets"]):
-            d = r["decs"][i].get(which)
-            if d is None:
+            if r["decs"][i].get(which) is None:
                 continue
-            stats[phase + "_evaluations"] += 1
-            src = "Unmarshal(%s of %s) into %s" % ("reference encoding" if which == "spec" else "Marshal output " + (
-                "null" if res["st"] == "null" else hexs(res["b"])), show(c), kshape(tg["K"]))
-            if d["st"] == "harness":
-                raise vf.Inconclusive("harness could not build target %s: %s" % (kshape(tg["K"]), d.get("err")))
-            if d["st"] == "panic":
-                ctx.violation(key_for(c, res, c["spec"], phase, "panic", tg["K"], d.get("err")), src + " panicked: %s" % d.get("err"), dict(case=c, result=r))
-            elif d["st"] == "err":
-                if tg["mayerr"]:
-                    stats[phase + "_err_allowed"] += 1
-                else:
-                    ctx.violation(key_for(c, res, c["spec"], phase, "error", tg["K"]), src + " fails: %s" % d.get("err"),
+            for fld, suffix in MODES:
+                d = r["decs"][i].get(which + fld)
+                stats[phase + "_evaluations"] += 1
+                if d is None:          # identical to the fresh result, which is judged on its own
+                    stats[phase + "_same_as_fresh"] += 1
+                    continue
+                dest = {"": "", "-prefilled": " (destination pre-filled with other content)",
+                        "-reused": " (destination reused from the previous decodes)"}[suffix]
+                src = "Unmarshal(%s of %s) into %s%s" % ("reference encoding" if which == "spec" else "Marshal output " + (
+                    "null" if res["st"] == "null" else hexs(res["b"])), show(c), kshape(tg["K"]), dest)
+                if d["st"] == "harness":
+                    raise vf.Inconclusive("harness could not build target %s: %s" % (kshape(tg["K"]), d.get("err")))
+                if d["st"] == "panic":
+                    ctx.violation(key_for(c, res, c["spec"], phase, "panic" + suffix, tg["K"], d.get("err")), src + " panicked: %s" % d.get("err"),
+                                  dict(case=c, result=r))
+                elif d["st"] == "err":
+                    if tg["mayerr"]:
+                        stats[phase + "_err_allowed"] += 1
+                    else:
+                        ctx.violation(key_for(c, res, c["spec"], phase, "error" + suffix, tg["K"]), src + " fails: %s" % d.get("err"),
+                                      dict(case=c, result=r, target=tg))
+                elif not same(c["T"], d["gv"], tg["exp"]):
+                    ctx.violation(key_for(c, res, c["spec"], phase, "value" + suffix, tg["K"]),
+                                  src + " gives %s, expected %s" % (json.dumps(d["gv"])[:200], json.dumps(tg["exp"])[:200]),
                                   dict(case=c, result=r, target=tg))
-            elif not same(c["T"], d["gv"], tg["exp"]):
-                ctx.violation(key_for(c, res, c["spec"], phase, "value", tg["K"]),
-                              src + " gives %s, expected %s" % (json.dumps(d["gv"])[:200], json.dumps(tg["exp"])[:200]),
-                              dict(case=c, result=r, target=tg))
-            else:
-                stats[phase + "_equal"] += 1
+                else:
+                    stats[phase + "_equal"] += 1
 
 
 # ------------------------------------------------------------------ verdicts, code -> spec
@@ -414,9 +428,11 @@ def judge_vectors(ctx, recs, verdicts, stats, prop):
                 continue   # the bytes themselves are already reported; C02 reports the round trip
             d = rec["decs"][i]
             phase = "dec" if prop == "C12" else "rt"
-            ctx.violation(key_for(case, rec["res"], v["spec"], phase, dv.split("-")[1], d["K"], d.get("err")),
+            suffix = {"dirty": "-prefilled", "reuse": "-reused"}.get(d.get("mode"), "")
+            ctx.violation(key_for(case, rec["res"], v["spec"], phase, dv.split("-")[1] + suffix, d["K"], d.get("err")),
                           "random vector: Unmarshal(Marshal(%s %s) = %s) into %s gives %s, expected %s" % (
-                              show(case), json.dumps(rec["gv"])[:160], hexs(rec["res"]["b"]), kshape(d["K"]),
+                              show(case), json.dumps(rec["gv"])[:160], hexs(rec["res"]["b"]), kshape(d["K"]) + (
+                                  " (destination %s)" % d["mode"] if d.get("mode", "fresh") != "fresh" else ""),
                               d["st"] + " " + (d.get("err", "")[:200] if d["st"] != "ok" else json.dumps(d.get("gv"))[:160]),
                               json.dumps(v["exps"][i] if i < len(v["exps"]) else None)[:160]),
                           dict(vector=rec, verdict=v))
@@ -480,6 +496,7 @@ def run(ctx):
              "Random vectors and decode evaluations are counted in evaluations only.",
         cases=len(cases), cases_unclaimed=st["unclaimed"], encodings_equal=st["enc_equal"], refusals_expected_and_seen=st["enc_refused_ok"],
         decodes_of_reference_encodings=st["dec_evaluations"], decodes_equal=st["dec_equal"], decode_errors_allowed=st["dec_err_allowed"],
+        decodes_into_prefilled_or_reused_destination_identical_to_fresh=st["dec_same_as_fresh"],
         random_vectors=len(verdicts), random_vectors_claimed=st["vec_claimed"], random_vector_decodes=st["vec_decodes"],
         samples=[sample_of(c, results[c["id"]]) for c in picks[::step][:6]],
     )
